@@ -5,6 +5,7 @@ import (
 	"encoding/base32"
 	"fmt"
 	"io"
+	"runtime"
 	"strings"
 	"sync"
 
@@ -89,6 +90,7 @@ func run2(f []string) (string, bool) {
 		// unpadded base32 of exactly one recorded read, each read used once (self-check)
 		sr := &streamReader{buf: unhx(f[1])}
 		g, k := int(u64(f[2])), int(u64(f[3]))
+		defer runtime.GOMAXPROCS(runtime.GOMAXPROCS(8))
 		results := make(chan string, g*k)
 		withReader(sr, func() {
 			var wg sync.WaitGroup
